@@ -1,8 +1,9 @@
 #!/usr/bin/env python3
-"""Summarise /tmp/iwe-mut/results/*.txt (output of tools/mutant.sh per seeded change) as a catch matrix."""
+"""Summarise $MUT_RESULTS/*.txt (default /tmp/iwe-mut/results; output of tools/mutant.sh per seeded change) as a catch matrix."""
 import glob, os, re, sys, json
+RES = os.environ.get("MUT_RESULTS", "/tmp/iwe-mut/results")
 rows = []
-for f in sorted(glob.glob('/tmp/iwe-mut/results/*.txt')):
+for f in sorted(glob.glob(RES + "/*.txt")):
     n = os.path.basename(f)[:-4]
     own = n.split('_')[0]
     txt = open(f).read()
